@@ -237,7 +237,7 @@ pub fn run(ctx: &Ctx) -> (Stats, Report) {
     let seed = ctx.seed;
 
     // E1: all dates, 8 fresh pictures per 4096-date chunk (pictures drawn from the seed)
-    let npic = if ctx.thorough { 24 } else { 8 };
+    let npic = if ctx.thorough { 48 } else { 8 };
     let s = par_sweep(c.len() as u64, 4096, |range, st| {
         let chunk = range.start / 4096;
         let pics: Vec<(String, Vec<&'static str>)> = (0..npic)
@@ -309,7 +309,7 @@ pub fn run(ctx: &Ctx) -> (Stats, Report) {
 
     // E2: proptest, all six types
     for kind in KINDS {
-        let per = (if ctx.thorough { 2_000_000 } else { 160_000 }) / THREADS as u32;
+        let per = (if ctx.thorough { 12_000_000 } else { 320_000 }) / THREADS as u32;
         let s = pt_run(
             &format!("C06/{}", kind.name()),
             seed,
